@@ -129,7 +129,7 @@ def live_row(rng, b, pev, swing=0.0, tf=None, noise=0.05):
     }
 
 
-def gen_feed(rng, case, frac_reporting=None, threshold=100, special=True, n_unexpected=None, allow_unknown_state=True, nan_rows=False, tossup=False):
+def gen_feed(rng, case, frac_reporting=None, threshold=100, special=True, n_unexpected=None, allow_unknown_state=True, nan_rows=False, tossup=False, dark_group=False):
     """Adds feed rows (and possibly tweaks baseline rows: zero baseline) for a case.
 
     returns list of feed rows; annotates case['notes'] with the intended role of special units.
@@ -146,9 +146,20 @@ def gen_feed(rng, case, frac_reporting=None, threshold=100, special=True, n_unex
     roles = {}
     for j, i in enumerate(idx):
         roles[i] = "rep" if j < n_rep else rng.choice(["partial", "partial", "none", "missing"])
+    if dark_group:
+        # a county (of at least two units when there is one) in which nothing has reached the threshold yet: a group of the county table,
+        # and with it often of the classification table, without a single reporting unit
+        by_county = {}
+        for i, b in enumerate(base):
+            by_county.setdefault((b["postal_code"], b["county_fips"]), []).append(i)
+        multi = sorted(k for k, v in by_county.items() if len(v) >= 2) or sorted(by_county)
+        for i in by_county[rng.choice(multi)]:
+            roles[i] = rng.choice(["partial", "none"])
     specials = []
     if special:
         pool = idx[:]
+        if dark_group:
+            pool = [i for i in pool if roles[i] == "rep"]
         rng.shuffle(pool)
         for kind in ["zero_baseline", "tf_low", "tf_high", "tf_eq_low", "tf_eq_high", "at_thr", "below_thr", "zero_baseline_partial", "zero_dem_baseline", "tiny"]:
             if pool and rng.random() < (0.3 if kind in ("zero_dem_baseline", "tiny") else 0.6):
@@ -391,7 +402,8 @@ def gen_case(rng, pi_method=None, threshold=None, **kw):
         if case["office"] in ("H", "Y", "Z") and "district" not in aggs_:
             n_unx = 0
     case["feed"] = gen_feed(rng, case, frac_reporting=kw.get("frac_reporting"), threshold=thr,
-                            special=kw.get("special", True), n_unexpected=n_unx, nan_rows=kw.get("nan_rows", False), tossup=kw.get("tossup", False))
+                            special=kw.get("special", True), n_unexpected=n_unx, nan_rows=kw.get("nan_rows", False), tossup=kw.get("tossup", False),
+                            dark_group=kw.get("dark_group", False))
     # blocklists
     mp = params["model_parameters"]
     if kw.get("blocklist", True) and rng.random() < 0.4:
